@@ -31,7 +31,7 @@ CLAIMED["C01"] = dict(
   note=HIST_NOTE + " 5e-7 slack on detuning comparisons (documented 1e-6 rounding). Own nearest-trap lookup for DMM weights.",
   technique="property-based testing: generated histories/inputs with boundary-biased values + exhaustive enumeration of the duration rule")
 CLAIMED["C13"] = dict(
-  text="Random call sequences over the whole building/inspection alphabet on three device families against an explicit typestate automaton (must accept / must refuse / unspecified), plus three exhaustively enumerated small spaces on the physical device: all <=4/5-call sequences from a 12-call alphabet, all <=5/6-call sequences from a 10-call alphabet with variables and DMM declarations, and all <=4/5-call continuations over {use variable, EOM controls, EOM pulse, measure, delay} after declaring an EOM channel and a variable. Exploration + exhaustive small scope.",
+  text="Random call sequences over the whole building/inspection alphabet on three device families against an explicit typestate automaton (must accept / must refuse / unspecified), plus four exhaustively enumerated small spaces on the physical device (the fourth on a copy limited to 150 ns, where calls are refused for length and the mode must stay): all <=4/5-call sequences from a 12-call alphabet, all <=5/6-call sequences from a 10-call alphabet with variables and DMM declarations, and all <=4/5-call continuations over {use variable, EOM controls, EOM pulse, measure, delay} after declaring an EOM channel and a variable. Exploration + exhaustive small scope.",
   note="Calls the statement does not classify are 'unspecified' (either outcome accepted, the model follows the observed outcome).",
   technique="model-based property testing: generated call sequences vs a typestate automaton + bounded exhaustive enumeration")
 CLAIMED["C06"] = dict(
